@@ -335,12 +335,18 @@ func checkC10(r *Run) {
 	exploreSpaces(r, nameAddrDrv, []space{{name: "chunked/contact-params", gen: one(qpaths), cfgs: []Cfg{{HdrType: int(sipsp.HdrContact), HdrCap: -1, ValCap: -1}}, beyondErr: 1, beyondOk: 1, split: 1}}, or, nil)
 	var hpaths [][]byte
 	for _, p := range cpaths[:20] {
-		hpaths = append(hpaths, append([]byte("CSeq: "), p[:len(p)-1]...))
+		hpaths = append(hpaths, append(append([]byte("CSeq: "), p[:len(p)-1]...), "\r\n"...))
 	}
 	for _, p := range paths[:40] {
-		hpaths = append(hpaths, append([]byte("Content-Length: "), p[:len(p)-1]...), append([]byte("Expires: "), p[:len(p)-1]...))
+		hpaths = append(hpaths, append(append([]byte("Content-Length: "), p[:len(p)-1]...), "\r\n"...), append(append([]byte("Expires: "), p[:len(p)-1]...), "\r\n"...),
+			append(append([]byte("l:"), p[:len(p)-1]...), "X: y\r\n\r\n"...))
 	}
 	exploreSpaces(r, hdrsDrv, []space{{name: "chunked/hdr-lines", gen: one(hpaths), cfgs: []Cfg{{HdrCap: -1, ValCap: -1, WithVals: true}}, beyondErr: 1, beyondOk: 1, split: 1}}, or, nil)
+	var mpaths [][]byte
+	for _, p := range hpaths {
+		mpaths = append(mpaths, append([]byte("INVITE sip:a SIP/2.0\r\n"), p...))
+	}
+	exploreSpaces(r, msgDrv, []space{{name: "chunked/messages", gen: one(mpaths), cfgs: []Cfg{{HdrCap: -1, ValCap: -1}, {HdrCap: -1, ValCap: -1, Flags: 1}}, beyondErr: 1, beyondOk: 1, split: 1}}, or, nil)
 }
 
 func init() {
